@@ -17,10 +17,12 @@ func init() {
 
 func checkC19(c *Ctx, r *Report) {
 	checkNudge(c, r)
+	checkNudgeWhole(c, r)
 	checkSampleGrid(c, r)
 	checkPerspective(c, r)
 	checkSampleGridForwarding(c, r)
 	checkSamplerRefusals(c, r)
+	checkSamplerWhole(c, r)
 	checkBitMatrixGetGuard(c, r, "M-GETGUARD")
 	checkSharedStores(c, r, "common", 5) // the row of sample points is per call: two samplings do not share it (also C18)
 	r.Note("not decided: floating-point accuracy of the transform; detectors' choice of the four points")
@@ -1163,4 +1165,296 @@ func checkSamplerRefusals(c *Ctx, r *Report) {
 		}
 	}
 	reportFold(r, c, "M-SAMPLE", dkey, fd.Pos(), dbad)
+}
+
+// S-NUDGEW: check-and-nudge as a whole function
+func checkNudgeWhole(c *Ctx, r *Report) {
+	r.Rule("S-NUDGEW", "GridSampler_checkAndNudgePoints, folded from source as a whole on a 10 x 8 image for every row of two points drawn from a set of 24 (inside, on each edge, up to one pixel outside on each side, farther outside) and for rows of one, three and four points (among them: a point to nudge at one end, a point far outside next to it, a point inside at the other end): it returns an error exactly when, scanning inwards from either end over the points that need a nudge, a point farther than one pixel outside is met; otherwise the points one pixel outside are pulled onto the edge - from both ends inwards, stopping at the first point that needs no nudge - and nothing else is changed", 1)
+	fd, p := c.funcDeclOf("common", "GridSampler_checkAndNudgePoints")
+	key := "common.GridSampler_checkAndNudgePoints/whole"
+	if fd == nil {
+		r.AnchorLost("S-NUDGEW", key, "function not found")
+		return
+	}
+	r.Analysed(key)
+	const w, hgt = 10, 8
+	// the reference: what the two passes are specified to do (coordinates truncated toward zero, as the code reads them)
+	ref := func(in []float64) ([]float64, bool) {
+		pts := append([]float64{}, in...)
+		step := func(off int) (nudged, ok bool) {
+			x, y := int(pts[off]), int(pts[off+1])
+			if x < -1 || x > w || y < -1 || y > hgt {
+				return false, false
+			}
+			if x == -1 {
+				pts[off], nudged = 0, true
+			} else if x == w {
+				pts[off], nudged = w-1, true
+			}
+			if y == -1 {
+				pts[off+1], nudged = 0, true
+			} else if y == hgt {
+				pts[off+1], nudged = hgt-1, true
+			}
+			return nudged, true
+		}
+		nudged := true
+		for off := 0; off < len(pts)-1 && nudged; off += 2 {
+			var ok bool
+			if nudged, ok = step(off); !ok {
+				return nil, false
+			}
+		}
+		nudged = true
+		for off := len(pts) - 2; off >= 0 && nudged; off -= 2 {
+			var ok bool
+			if nudged, ok = step(off); !ok {
+				return nil, false
+			}
+		}
+		return pts, true
+	}
+	base := [][2]float64{{3.5, 4.5}, {0, 0}, {9.9, 7.9}, {-0.5, 3}, {-1, 3}, {-1.5, 3}, {-2, 3}, {-2.5, 3}, {10, 3}, {10.5, 3}, {11, 3}, {11.5, 3},
+		{3, -0.5}, {3, -1}, {3, -1.9}, {3, -2}, {3, 8}, {3, 8.5}, {3, 9}, {3, 9.5}, {-1, -1}, {10, 8}, {-1, 8}, {10.9, 8.9}}
+	var rows [][]float64
+	for _, a := range base {
+		rows = append(rows, []float64{a[0], a[1]})
+		for _, b := range base {
+			rows = append(rows, []float64{a[0], a[1], b[0], b[1]})
+		}
+	}
+	for i := 0; i+3 < len(base); i += 2 {
+		rows = append(rows, []float64{base[i+1][0], base[i+1][1], base[0][0], base[0][1], base[i+2][0], base[i+2][1]})
+		rows = append(rows, []float64{base[i+1][0], base[i+1][1], base[i+3][0], base[i+3][1], base[0][0], base[0][1], base[i+2][0], base[i+2][1]})
+	}
+	// a point that is nudged at one end, then a point far outside (or a second one to nudge), then one inside: only
+	// a scan that goes on after a nudge - of either coordinate, at either edge, from either end - meets the middle one
+	for _, a := range [][2]float64{{-1, 3}, {10, 3}, {3, -1}, {3, 8}, {-1, 8}, {10.9, -0.5}} {
+		for _, m := range [][2]float64{{-2, 3}, {11, 3}, {3, -2}, {3, 9}, {10, 3}, {3, -1}, {3.5, 4.5}} {
+			rows = append(rows, []float64{a[0], a[1], m[0], m[1], 3.5, 4.5})
+			rows = append(rows, []float64{3.5, 4.5, m[0], m[1], a[0], a[1]})
+		}
+	}
+	rows = append(rows, []float64{})
+	bad := ""
+	for _, row := range rows {
+		pts := &Val{K: VList, Local: true}
+		for _, v := range row {
+			pts.L = append(pts.L, &Val{K: VFloat, F: v})
+		}
+		h := &rpf{unroll: 1000}
+		h.callHook = func(rr *rpf, call *ast.CallExpr, callee types.Object) (*Val, bool) {
+			if fn, ok := callee.(*types.Func); ok {
+				switch fn.Name() {
+				case "GetWidth":
+					return vint(w), true
+				case "GetHeight":
+					return vint(hgt), true
+				}
+			}
+			return errCtorHook(rr, call, callee)
+		}
+		res, err := c.rpfCall(fd, p, []*Val{{K: VStruct, Ptr: true, Fields: map[string]*Val{}}, pts}, h)
+		if err != nil {
+			if strings.Contains(err.Error(), "out of range") {
+				bad = fmt.Sprintf("points %v: %s - a run-time panic", row, err.Error())
+			} else {
+				bad = fmt.Sprintf("?points %v: %s", row, err.Error())
+			}
+			break
+		}
+		want, ok := ref(row)
+		refused := len(res) == 1 && res[0].K != VNil
+		if refused != !ok {
+			bad = fmt.Sprintf("points %v on a %dx%d image: refused = %v, expected %v", row, w, hgt, refused, !ok)
+			break
+		}
+		if ok {
+			for i, e := range pts.L {
+				var g float64
+				switch e.K {
+				case VFloat:
+					g = e.F
+				case VInt:
+					g = float64(e.I)
+				default:
+					bad = fmt.Sprintf("?points %v: element %d is not a constant afterwards", row, i)
+				}
+				if bad == "" && g != want[i] {
+					bad = fmt.Sprintf("points %v on a %dx%d image: coordinate %d is %v afterwards, expected %v", row, w, hgt, i, g, want[i])
+				}
+			}
+		}
+		if bad != "" {
+			break
+		}
+	}
+	r.Extra("S-NUDGEW rows folded", len(rows))
+	reportFold(r, c, "S-NUDGEW", key, fd.Pos(), bad)
+	r.DecidedBy("S-NUDGE", "S-NUDGEW", "the whole function folded on rows of points around every edge of the image")
+}
+
+// S-SAMPLEW: the sampler as a whole function
+func checkSamplerWhole(c *Ctx, r *Report) {
+	r.Rule("S-SAMPLEW", "DefaultGridSampler.SampleGridWithTransform, folded from source as a whole with the transform, check-and-nudge, the image and the result matrix replaced by recorders, for grids of 1x1, 4x3 and 7x2 cells: every cell (i, j) is set exactly when the image is black at the pixel the transform (here x -> 3x + 2.25, y -> 2y + 1.75) sends the cell centre (i + 0.5, j + 0.5) to - read after check-and-nudge has been given the row's transformed points, from the very values it left (a nudge made by the recorder shows in the pixel read); a row that check-and-nudge refuses, and a pixel at or beyond the image's width or height, are a not-found error", 1)
+	fd, p := c.funcDeclOf("common", "DefaultGridSampler.SampleGridWithTransform")
+	key := "common.DefaultGridSampler.SampleGridWithTransform/whole"
+	if fd == nil {
+		r.AnchorLost("S-SAMPLEW", key, "method not found")
+		return
+	}
+	r.Analysed(key)
+	imgBlack := func(x, y int64) bool { return (x*7+y*3+x*y)%5 < 2 }
+	bad := ""
+	for _, sc := range []struct {
+		dx, dy, iw, ih int64
+		refuseRow      int64 // row at which check-and-nudge refuses (-1: never)
+		nudge          bool  // the recorder moves the first point of every row one pixel right
+	}{{1, 1, 40, 30, -1, false}, {4, 3, 40, 30, -1, false}, {7, 2, 40, 30, -1, true}, {4, 3, 40, 30, -1, true}, {4, 3, 40, 30, 1, false}, {4, 3, 12, 30, -1, false}, {4, 3, 40, 6, -1, false}} {
+		type cell struct{ x, y int64 }
+		set := map[cell]bool{}
+		var reads []cell
+		row := int64(-1)
+		nudgedRows := map[int64]bool{}
+		img := &Val{K: VStruct, Ptr: true, Fields: map[string]*Val{"image": vbool(true)}}
+		outM := &Val{K: VStruct, Ptr: true, Fields: map[string]*Val{"result": vbool(true)}}
+		h := &rpf{unroll: 100000, maxSteps: 2000000}
+		h.callHook = func(rr *rpf, call *ast.CallExpr, callee types.Object) (*Val, bool) {
+			fn, ok := callee.(*types.Func)
+			if !ok {
+				return nil, false
+			}
+			sel, _ := call.Fun.(*ast.SelectorExpr)
+			switch fn.Name() {
+			case "GetWidth":
+				return vint(sc.iw), true
+			case "GetHeight":
+				return vint(sc.ih), true
+			case "TransformPoints":
+				if pts := rr.expr(call.Args[0]); pts.K == VList {
+					for i := 0; i+1 < len(pts.L); i += 2 {
+						x, y := pts.L[i], pts.L[i+1]
+						if x.K != VFloat || y.K != VFloat {
+							rpfFail("the points handed to the transform are not constants")
+						}
+						pts.L[i] = &Val{K: VFloat, F: 3*x.F + 2.25}
+						pts.L[i+1] = &Val{K: VFloat, F: 2*y.F + 1.75}
+					}
+					return &Val{K: VNil}, true
+				}
+			case "GridSampler_checkAndNudgePoints":
+				pts := rr.expr(call.Args[1])
+				if pts.K != VList || len(pts.L) < 2 || pts.L[1].K != VFloat {
+					rpfFail("check-and-nudge is not given a row of transformed points")
+				}
+				// which grid row this is, from the transformed y of its first point
+				row = int64((pts.L[1].F-1.75)/2 - 0.5 + 0.25)
+				if int64(len(pts.L)) != 2*sc.dx {
+					rpfFail("check-and-nudge is given %d coordinates for a row of %d cells: points it does not see are not pulled onto the image", len(pts.L), sc.dx)
+				}
+				if row == sc.refuseRow {
+					return vstr("error"), true
+				}
+				if sc.nudge {
+					// as the real routine may: the first two points and the last one are moved
+					for _, i := range []int{0, 2, len(pts.L) - 2} {
+						if i >= 0 && i < len(pts.L) && pts.L[i].K == VFloat {
+							pts.L[i] = &Val{K: VFloat, F: pts.L[i].F + 1}
+						}
+					}
+				}
+				nudgedRows[row] = true
+				return &Val{K: VNil}, true
+			case "Get":
+				if sel != nil && len(call.Args) == 2 {
+					x, y := rr.expr(call.Args[0]), rr.expr(call.Args[1])
+					if x.K != VInt || y.K != VInt {
+						rpfFail("a pixel is read at coordinates that are not constants")
+					}
+					if x.I < 0 || y.I < 0 || x.I >= sc.iw || y.I >= sc.ih {
+						rpfFail("the pixel (%d, %d) is read, outside the %dx%d image", x.I, y.I, sc.iw, sc.ih)
+					}
+					reads = append(reads, cell{x.I, y.I})
+					return vbool(imgBlack(x.I, y.I)), true
+				}
+			case "Set":
+				if len(call.Args) == 2 {
+					x, y := rr.expr(call.Args[0]), rr.expr(call.Args[1])
+					set[cell{x.I, y.I}] = true
+					return &Val{K: VNil}, true
+				}
+			}
+			return errCtorHook(rr, call, callee)
+		}
+		h.multiHook = func(call *ast.CallExpr, callee types.Object) ([]*Val, bool) {
+			if isFuncNamed(callee, "", "NewBitMatrix") {
+				return []*Val{outM, {K: VNil}}, true
+			}
+			return nil, false
+		}
+		h.env = map[types.Object]*Val{}
+		if ro := recvObj(p, fd); ro != nil {
+			h.env[ro] = &Val{K: VStruct, Fields: map[string]*Val{}}
+		}
+		res, err := c.rpfCall(fd, p, []*Val{img, vint(sc.dx), vint(sc.dy), {K: VStruct, Ptr: true, Fields: map[string]*Val{}}}, h)
+		what := fmt.Sprintf("a grid of %dx%d cells on a %dx%d image (refusing row %d, nudging %v)", sc.dx, sc.dy, sc.iw, sc.ih, sc.refuseRow, sc.nudge)
+		if err != nil {
+			if strings.Contains(err.Error(), "outside the") || strings.Contains(err.Error(), "out of range") {
+				bad = what + ": " + err.Error()
+			} else {
+				bad = "?" + what + ": " + err.Error()
+			}
+			break
+		}
+		// the expected outcome
+		wantErr := sc.refuseRow >= 0
+		want := map[cell]bool{}
+		for j := int64(0); j < sc.dy && !wantErr; j++ {
+			for i := int64(0); i < sc.dx; i++ {
+				fx, fy := 3*(float64(i)+0.5)+2.25, 2*(float64(j)+0.5)+1.75
+				if sc.nudge && (i == 0 || i == 1 || i == sc.dx-1) {
+					fx++
+					if sc.dx == 2 && i == 1 || sc.dx == 1 {
+						fx++ // the same point is first (or second) and last: moved twice
+					}
+				}
+				px, py := int64(fx), int64(fy)
+				if px >= sc.iw || py >= sc.ih {
+					wantErr = true
+					break
+				}
+				if imgBlack(px, py) {
+					want[cell{i, j}] = true
+				}
+			}
+		}
+		gotErr := len(res) == 2 && res[1].K != VNil
+		if gotErr != wantErr {
+			bad = fmt.Sprintf("%s: error = %v, expected %v", what, gotErr, wantErr)
+			break
+		}
+		if !wantErr {
+			for j := int64(0); j < sc.dy; j++ {
+				if !nudgedRows[j] {
+					bad = fmt.Sprintf("%s: row %d is sampled without having been handed to check-and-nudge", what, j)
+				}
+			}
+		}
+		if !wantErr && bad == "" {
+			if len(set) != len(want) {
+				bad = fmt.Sprintf("%s: %d cells are set, expected %d", what, len(set), len(want))
+				break
+			}
+			for k := range want {
+				if !set[k] {
+					bad = fmt.Sprintf("%s: cell (%d, %d) is not set although the image is black where its centre is mapped to", what, k.x, k.y)
+				}
+			}
+		}
+		if bad != "" {
+			break
+		}
+	}
+	reportFold(r, c, "S-SAMPLEW", key, fd.Pos(), bad)
+	r.DecidedByKeys("M-SAMPLE", "S-SAMPLEW", "the sampler folded as a whole: seeding of the cell centres, the order transform - nudge - read, the per-pixel guard", ".cell-centres", ".cell-mapping", ".nudge-dominates", ".nudged-slice", ".upper-bound")
 }
